@@ -64,6 +64,13 @@ func (c *Ctx) emitOp03(r opRun, m modeling.Mesh) {
 		c.Emit("c03.holds.repeat_spec", r.args+" "+out, "true")
 	case "setattr":
 		c.Emit("c03.holds.frame_spec", f[0]+" "+f[1]+" "+in+" "+out, "true")
+	case "scan":
+		c.Emit("c03.holds.same_mesh", in+" "+out, "true")
+		c.Emit("c03.holds.scan_visits", f[0]+" "+f[1]+" "+lastVisits+" "+in, "true")
+	case "scanprims":
+		c.Emit("c03.holds.same_mesh", in+" "+out, "true")
+	case "modify":
+		c.Emit("c03.holds.frame_spec", f[0]+" "+f[1]+" "+in+" "+out, "true")
 	case "translate", "scale", "rotate", "center", "normalize", "laplacian":
 		c.Emit("c03.holds.frame_spec", "3 "+f[0]+" "+in+" "+out, "true")
 	case "smoothnormals", "flatnormals":
